@@ -88,7 +88,14 @@ Definition tmpl_eqb (a b : tmpl) : bool := option_eqb N.eqb a b.
 (** The ObjectDeployment: spec.template, spec.paused, metadata.generation. *)
 Record od := { d_tmpl : tmpl; d_paused : bool; d_gen : N }.
 
-Record world := { w_pkg : pkg; w_od : option od; w_pulls : N }.
+(** The other (Cluster)Packages of the cluster, seen from the Package at hand and the name of its
+    manifest: how many carry the label package-operator.run/package=<manifest name> in the same
+    scope (the namespace of a Package, the cluster for a ClusterPackage), how many carry it in
+    another namespace (none for a ClusterPackage), how many do not carry it; and whether the
+    Package itself carries it.  No pass changes any of this. *)
+Record peers := { n_same : N; n_elsewhere : N; n_unrelated : N; self_labelled : bool }.
+
+Record world := { w_pkg : pkg; w_od : option od; w_pulls : N; w_peers : peers }.
 
 (** ** Oracles *)
 
@@ -103,7 +110,9 @@ Record oracle := {
   o_load : bool;          (* structuralLoader.LoadComponent succeeds *)
   o_range_ok : bool;      (* every platformVersion range and the environment's versions parse *)
   o_unmet : list ckind;   (* messages of unmet platform / version constraints, in manifest order *)
-  o_unique : option N;    (* a uniqueInScope constraint exists: number of Packages the List returns *)
+  o_unique : option N;    (* a uniqueInScope constraint exists: number of (Cluster)Packages the List of
+                             validateUnique returns; in a history this number is not supplied by the
+                             scenario but computed from the peers in the world, see [seen] *)
   o_config : cfg_out;     (* json.Unmarshal + AdmitPackageConfiguration *)
   o_images : bool;        (* every lock file image reference parses *)
   o_render : bool;        (* RenderPackageInstance: package validators + object validators *)
@@ -189,19 +198,19 @@ Definition call (k : rkind) (found : bool) (eff : world -> world) (s : st)
     when something outside metadata and status changes. *)
 Definition eff_pause (b : bool) (w : world) : world :=
   match w_od w with
-  | Some d => {| w_pkg := w_pkg w; w_pulls := w_pulls w;
+  | Some d => {| w_pkg := w_pkg w; w_pulls := w_pulls w; w_peers := w_peers w;
                  w_od := Some {| d_tmpl := d_tmpl d; d_paused := b;
                                  d_gen := if Bool.eqb (d_paused d) b then d_gen d else d_gen d + 1 |} |}
   | None => w
   end.
 
 Definition eff_create (w : world) : world :=
-  {| w_pkg := w_pkg w; w_pulls := w_pulls w;
+  {| w_pkg := w_pkg w; w_pulls := w_pulls w; w_peers := w_peers w;
      w_od := Some {| d_tmpl := None; d_paused := false; d_gen := 1 |} |}.
 
 Definition eff_update (t : tmpl) (w : world) : world :=
   match w_od w with
-  | Some d => {| w_pkg := w_pkg w; w_pulls := w_pulls w;
+  | Some d => {| w_pkg := w_pkg w; w_pulls := w_pulls w; w_peers := w_peers w;
                  w_od := Some {| d_tmpl := t; d_paused := d_paused d;
                                  d_gen := if tmpl_eqb (d_tmpl d) t then d_gen d else d_gen d + 1 |} |}
   | None => w
@@ -211,10 +220,10 @@ Definition eff_update (t : tmpl) (w : world) : world :=
 Definition eff_status (p : pkg) (w : world) : world :=
   {| w_pkg := {| p_spec := p_spec (w_pkg w); p_gen := p_gen (w_pkg w);
                  p_hash := p_hash p; p_conds := p_conds p |};
-     w_od := w_od w; w_pulls := w_pulls w |}.
+     w_od := w_od w; w_pulls := w_pulls w; w_peers := w_peers w |}.
 
 Definition eff_pull (w : world) : world :=
-  {| w_pkg := w_pkg w; w_od := w_od w; w_pulls := w_pulls w + 1 |}.
+  {| w_pkg := w_pkg w; w_od := w_od w; w_pulls := w_pulls w + 1; w_peers := w_peers w |}.
 
 Definition with_conds (p : pkg) (l : list cond) : pkg :=
   {| p_spec := p_spec p; p_gen := p_gen p; p_hash := p_hash p; p_conds := l |}.
@@ -320,7 +329,7 @@ Section Pass.
       match o_unique o with
       | None => deploy_rest p (o_unmet o) s    (* validateUnique :272-281 *)
       | Some l =>
-          (* :283-311 List with the package label selector *)
+          (* :283-311 List of the (Cluster)Packages; which ones: see [listed] *)
           call KListPkg true (fun w => w) s
             (fun s =>
                if l =? 0 then fail s           (* :314-315 ErrNonExisting -> :369-371 -> :151-154 *)
@@ -403,20 +412,44 @@ Definition edit (sp : spec) (w : world) : world :=
   let p := w_pkg w in
   if spec_eqb sp (p_spec p) then w
   else {| w_pkg := {| p_spec := sp; p_gen := p_gen p + 1; p_hash := p_hash p; p_conds := p_conds p |};
-          w_od := w_od w; w_pulls := w_pulls w |}.
+          w_od := w_od w; w_pulls := w_pulls w; w_peers := w_peers w |}.
 
 Definition obs_of (r : result) : obs :=
   let w := st_w (r_st r) in
   {| ob_events := st_log (r_st r); ob_err := r_err r; ob_requeue := r_requeue r;
      ob_hash := p_hash (w_pkg w); ob_conds := p_conds (w_pkg w); ob_od := w_od w; ob_pulls := w_pulls w |}.
 
+(** What the List of validateUnique (deployer.go:283-311) returns.
+    [scoped = false], the code as it is: a selector for the package label is built (:286-290), but
+    the result of Selector.Add is dropped (:291), so the empty selector is used, and the List is not
+    restricted to the Package's namespace: every (Cluster)Package of the cluster is listed, the
+    Package itself included.
+    [scoped = true], what the constraint says: the (Cluster)Packages carrying the manifest's package
+    label in the same scope. *)
+Definition listed (scoped : bool) (p : peers) : N :=
+  if scoped then (if self_labelled p then 1 else 0) + n_same p
+  else 1 + n_same p + n_elsewhere p + n_unrelated p.
+
+(** The oracle of a pass as the controller sees it among these peers: the scenario says whether the
+    manifest has a uniqueInScope constraint ([o_unique = Some _]); the List result comes from the peers. *)
+Definition seen (scoped : bool) (ps : peers) (o : oracle) : oracle :=
+  match o_unique o with
+  | None => o
+  | Some _ =>
+      {| o_pull := o_pull o; o_load := o_load o; o_range_ok := o_range_ok o; o_unmet := o_unmet o;
+         o_unique := Some (listed scoped ps); o_config := o_config o; o_images := o_images o;
+         o_render := o_render o |}
+  end.
+
 Section Run.
   Variable digest : N -> N -> N -> N.
   Variable fixed : bool.
+  Variable scoped : bool.
 
   (** State between passes: the stored objects, the armed faults and the armed third-party writes. *)
   Definition do_pass (o : oracle) (w : world) (f : list rstat) (d : list bool) : result :=
-    reconcile digest fixed o {| st_w := w; st_f := f; st_d := d; st_dirty := false; st_log := [] |}.
+    reconcile digest fixed (seen scoped (w_peers w) o)
+              {| st_w := w; st_f := f; st_d := d; st_dirty := false; st_log := [] |}.
 
   Fixpoint run (steps : list step) (w : world) (f : list rstat) (d : list bool) : list obs :=
     match steps with
@@ -440,9 +473,13 @@ Section Run.
     end.
 End Run.
 
-(** A freshly created Package: generation 1, empty status, no ObjectDeployment. *)
-Definition init_world (sp : spec) : world :=
-  {| w_pkg := {| p_spec := sp; p_gen := 1; p_hash := None; p_conds := [] |}; w_od := None; w_pulls := 0 |}.
+(** A freshly created Package among the given peers: generation 1, empty status, no ObjectDeployment. *)
+Definition init_world (sp : spec) (ps : peers) : world :=
+  {| w_pkg := {| p_spec := sp; p_gen := 1; p_hash := None; p_conds := [] |}; w_od := None; w_pulls := 0;
+     w_peers := ps |}.
+
+(** the Package is labelled and alone *)
+Definition no_peers : peers := {| n_same := 0; n_elsewhere := 0; n_unrelated := 0; self_labelled := true |}.
 
 (** ** Classification of oracle outcomes *)
 
